@@ -33,7 +33,7 @@ class History:
         self.runs = []          # (index of start event, index of end event, Run, plan, mode)
         self.label = label or ""
         self.extra_files = extra_files or {}
-        self.tree = {n: [dict(s) for s in tree.get(n, [])] for n in self.names}
+        self.tree = {n: self._norm(tree.get(n, [])) for n in self.names}
         self.present = {n: (n in tree) for n in self.names}
         self._materialise_all()
         self.proj.set_lock(self._real_lock(lock))
@@ -45,6 +45,16 @@ class History:
                 fh.write(data if isinstance(data, bytes) else data.encode())
         self.events.append({"ev": "init", "files": self._abs_tree(self.tree), "lock": self.abs_lock,
                             "maxid": self.maxid, "label": self.label})
+
+    def _norm(self, slots):
+        """'unusable' only exists in structured mode; elsewhere such a slot is rendered (and read back) as ignored"""
+        out = []
+        for s in slots:
+            s = dict(s)
+            if s["kind"] == "unusable" and not self.structured:
+                s["kind"] = "ignored"
+            out.append(s)
+        return out
 
     # -- id scaling -------------------------------------------------------------------------
     def real_id(self, a):
@@ -129,9 +139,9 @@ class History:
         rewritten from the template."""
         for n in self.names:
             newp = n in newtree
-            if newp != self.present[n] or (newp and newtree[n] != self.tree[n]):
+            if newp != self.present[n] or (newp and self._norm(newtree[n]) != self.tree[n]):
                 self.present[n] = newp
-                self.tree[n] = [dict(s) for s in newtree.get(n, [])]
+                self.tree[n] = self._norm(newtree.get(n, []))
                 self._materialise(n)
         self.events.append({"ev": "dev", "files": self._abs_tree(self.tree), "lock": self.abs_lock})
 
